@@ -180,10 +180,10 @@ class Verifier:
         """Generate the obligations of one function (or lemma).  Returns (Exec, obligations)."""
         if target.startswith("lemma:"):
             return self.vc_lemma(target[6:])
-        modname, qual = target.split(":")
         c = self.registry.contracts.get(target)
         if c is None:
             raise EngineError("no contract for %s" % target)
+        modname, qual = target.split("#")[0].split(":")
         mod = self.module(modname)
         if qual not in mod.functions:
             raise EngineError("function %s not found in %s" % (qual, mod.path))
